@@ -256,6 +256,9 @@ func vp8RtCase(x *Ctx, mk func(c *Case) (enable bool, warm int, calls []PayCall)
 		rcv := &codecs.VP8Packet{}
 		c.O.Nat(len(calls))
 		nontrivial := false
+		// the whole history is payloaded first and read afterwards (packets wait in a send queue while
+		// the next frames are packetized): what a call returned must still be that frame then
+		all := make([][][]byte, 0, len(calls))
 		for _, call := range calls {
 			var frags [][]byte
 			if try(func() { frags = pay.Payload(call.MTU, cloneBytes(call.Input)) }) {
@@ -263,6 +266,9 @@ func vp8RtCase(x *Ctx, mk func(c *Case) (enable bool, warm int, calls []PayCall)
 				c.O.Tok("PAYLOAD-PANIC")
 				return
 			}
+			all = append(all, frags)
+		}
+		for _, frags := range all {
 			if len(frags) > 1 {
 				nontrivial = true
 			}
